@@ -106,7 +106,7 @@ func c08Transcript[T any](codec Codec[T], api string, chunk func(int) int, rng *
 func runC08(rep *Report, tier string, seed int64) {
 	rep.Rule = "one seeded sequential workload (echo, int64 arithmetic, errors with blanks, value+error, closures with error results, nested bounce, nested names, no-result call, slices, typed closure arguments, teardown) is replayed under " +
 		"{message API, stream API whole writes, stream API with PRNG chunking 1..7 bytes} × {JSON raw, JSON bytes, CBOR}; the normalised transcripts (results, errors, invocation logs, hook events) must be pairwise equal. distinct = (workload seed, configuration)"
-	rounds := 3
+	rounds := 10
 	if tier == "thorough" {
 		rounds = 40
 	}
